@@ -244,12 +244,18 @@ func Verif_C07_predict_vs_reference() {
 	n := 2 * rb
 	data := verifrt.Bytes("data", n)
 	enc := verifEncode(p, data, n)
+	// PNG: the filter distance is the pixel size in bytes, rounded up (the
+	// reference computes it itself)
+	bpp := (p.Colors*p.BitsPerComponent + 7) / 8
+	if bpp < 1 {
+		bpp = 1
+	}
 	if p.Predictor >= 10 {
-		got, ok := refPNGDecode(enc, rb, p.bytesPerPixel())
+		got, ok := refPNGDecode(enc, rb, bpp)
 		verifrt.Assert(ok, "reference PNG decoder accepts library output")
 		verifrt.Assert(verifrt.Equal(got, data), "reference PNG decoder reproduces the input")
 		if p.Predictor == 10 {
-			src := refPNGEncode(data, rb, p.bytesPerPixel())
+			src := refPNGEncode(data, rb, bpp)
 			out, err, exhausted := verifDecode(p, src, 64, 0, 8)
 			verifrt.Assert(!exhausted && err == io.EOF, "library accepts reference PNG rows")
 			verifrt.Assert(verifrt.Equal(out, data), "library decodes reference PNG rows to the input")
